@@ -112,7 +112,8 @@ Proof.
     unfold q_div. destruct (Qeq_bool (qval y) 0); simpl; auto.
   - destruct (eval rpow ps db a) as [x|[]]; simpl in *; auto.
     destruct (eval rpow ps db e) as [y|[]]; simpl in *; auto.
-    unfold q_pow. destruct y as [ev|ev ed]; simpl; auto.
+    destruct y as [ev|ev ed]; [destruct (negb (Qle_bool 0 (qval x)) && negb (is_int ev)); [exact I|]|];
+      unfold q_pow; simpl; auto.
     unfold vpow. destruct (is_int ev).
     + destruct ((Qfloor ev <? 0)%Z && Qeq_bool (qval x) 0); simpl; auto.
     + destruct (Qle_bool 0 (qval x)); simpl; auto. destruct (rpow (qval x) ev); simpl; auto.
